@@ -323,7 +323,7 @@ def main():
                        "kernel through O(a^n) (ODE residual in the central coupling + initial condition, on jets), and equals it identically for xif2=1. "
                        "x-space operators, threshold crossings and the QED variants are not decided here.")
     chk.bounds = ["non-singlet: orders 1-4, methods iterate-exact, iterate-expanded, truncated, ordered-truncated; schemes exponentiated and expanded; symbolic gamma_k, beta_k, L",
-                  "singlet: truncated and perturbative-exact with general 2x2 gamma at order 2 (quick), order 3 (thorough); decompose-exact with diagonal gamma at orders 2-3",
+                  "singlet: truncated and perturbative-exact with general 2x2 gamma at order 2 (quick), order 3 (thorough); decompose-exact with diagonal gamma at order 2 (quick) and 3 (thorough)",
                   "xif2=1: all eight methods, orders 1-4 (non-singlet) / 1-3 (singlet), exact identity",
                   "Operator.mu2: symbolic scales, 3 modes x is_threshold"]
     chk.stubs = ["ekore anomalous dimensions (ad_us.gamma_ns / gamma_singlet) -> symbolic towers", "eko.beta -> symbolic beta_k; as4 roots -> symbolic roots",
@@ -342,7 +342,7 @@ def main():
             chk.case("singlet.%s.%s.o2" % (sch, mth), case_kernel, sector="singlet", order=2, method=mth, scheme=sch)
             if thorough:
                 chk.case("singlet.%s.%s.o3" % (sch, mth), case_kernel, sector="singlet", order=3, method=mth, scheme=sch)
-        for o in (2, 3):
+        for o in ((2, 3) if thorough else (2,)):
             chk.case("singlet.%s.DECOMPOSE_EXACT.o%d.diag" % (sch, o), case_kernel, sector="singlet", order=o, method="DECOMPOSE_EXACT", scheme=sch, kind="diag")
         for o in ((1, 2, 3, 4) if thorough else (2, 4)):
             for mth in (["ITERATE_EXACT", "TRUNCATED", "DECOMPOSE_EXPANDED", "PERTURBATIVE_EXPANDED"] if not thorough else
